@@ -1534,7 +1534,7 @@ static uint64_t bufr_value2bits( BufrDescriptor *bd )
 
 */
                if ((bd->encoding.reference != 0)||(bd->encoding.scale != 0))
-                  ival = bufr_cvt_fval_to_i32( bd->descriptor, &(bd->encoding), (float)ival );
+                  ival = bufr_cvt_dval_to_i64( bd->descriptor, &(bd->encoding), (double)ival );   /* a float holds 24 bits only */
                }
             else
                {
@@ -1731,7 +1731,7 @@ static void bufr_put_desc_value ( BUFR_Message *bufr, BufrDescriptor *bd )
                i32val = bufr_value_get_int32( bd->value );
                if ((bd->encoding.reference != 0)||(bd->encoding.scale != 0))
                   {
-                  ui64val = bufr_cvt_fval_to_i32( bd->descriptor, &(bd->encoding), (float)i32val );
+                  ui64val = bufr_cvt_dval_to_i64( bd->descriptor, &(bd->encoding), (double)i32val );   /* a float holds 24 bits only */
                   }
                else if (i32val < 0)
                   {
